@@ -6,28 +6,42 @@ import (
 	"verif/harness/engine"
 )
 
+// lifecycle emphasis: few names, files watched, delete/recreate/link/hold heavy.
+func lifeCfg() engine.GenCfg {
+	cfg := baseCfg()
+	cfg.MaxNames = 3
+	cfg.Shapes = false
+	cfg.WatchFiles = 65
+	cfg.PApi = 35
+	cfg.PAddAgain = 55
+	cfg.MaxBurst = 8
+	cfg.W = map[string]int{
+		engine.KCreate: 14, engine.KWrite: 5, engine.KChmod: 3, engine.KUnlink: 14, engine.KMkdir: 2, engine.KRmdir: 2,
+		engine.KRename: 12, engine.KLink: 8, engine.KSymlink: 4, engine.KHold: 6, engine.KRelease: 4, engine.KRmr: 1, engine.KTrunc: 1,
+	}
+	return cfg
+}
+
 func any(c *engine.Case, w *engine.World) bool { return w.Delivered >= 3 }
 
 func TestC02(t *testing.T) { engine.CheckE1(t, "C02", baseCfg(), any) }
 func TestC03(t *testing.T) { engine.CheckE1(t, "C03", baseCfg(), any) }
 func TestC04(t *testing.T) {
-	cfg := baseCfg()
+	cfg := lifeCfg()
 	cfg.PApi = 50
 	cfg.ListEvery = true
 	engine.CheckE1(t, "C04", cfg, any)
 }
 func TestC08(t *testing.T) { engine.CheckE1(t, "C08", baseCfg(), any) }
 func TestC09(t *testing.T) {
-	cfg := baseCfg()
-	cfg.PApi = 30
+	cfg := lifeCfg()
 	cfg.ListEvery = true
 	engine.CheckE1(t, "C09", cfg, any)
 }
 func TestC10(t *testing.T) { engine.CheckE1(t, "C10", baseCfg(), any) }
 func TestC11(t *testing.T) { engine.CheckE1(t, "C11", baseCfg(), any) }
 func TestC12(t *testing.T) {
-	cfg := baseCfg()
-	cfg.PApi = 30
+	cfg := lifeCfg()
 	cfg.Fdchk = true
 	engine.CheckE1(t, "C12", cfg, any)
 }
